@@ -99,6 +99,8 @@ pub fn two_run_case(
     if !sink.wants(idx) {
         return;
     }
+    let nsteps = steps1.len();
+    let steps1 = &crate::apply_mask(steps1)[..];
     let obs1 = run_history(steps1, nonce);
     let steps2 = make_second(steps1, &obs1);
     let obs2 = run_history(&steps2, nonce);
@@ -108,7 +110,7 @@ pub fn two_run_case(
     let judge = intern_wrap(&judge);
     let input = csteps(steps1);
     let nt = nontrivial(steps1, &obs1, &steps2);
-    sink.case(idx, kind, &judge, &input, nt, || serde_json::json!({ "steps": csteps(steps1) }));
+    sink.case(idx, kind, &judge, &input, nt, || serde_json::json!({ "steps": csteps(steps1), "nsteps": nsteps }));
 }
 
 /// well-formed stream configuration
